@@ -510,6 +510,7 @@ type Contract struct {
 	Results    []string
 	Requires   []*Clause
 	Ensures    []*Clause
+	Lemmas     []*Clause // closed statements over the contracts' spec functions, proved once at entry without the preconditions
 	Defines    []*Clause // ghost-defining postconditions: assumed at call sites, not checked on the body
 	Modifies   []Expr
 	ModSet     bool // a modifies clause was given ("modifies nothing" -> ModSet && len(Modifies)==0)
@@ -788,6 +789,23 @@ func ParseSpecFile(path, pkg string) (*SpecFile, error) {
 					label = fmt.Sprintf("e%d", len(cur.Ensures))
 				}
 				cur.Ensures = append(cur.Ensures, &Clause{Label: label, E: e, Src: src, Props: props})
+			case "lemma":
+				label, src := splitLabel(rest)
+				props := []string(nil)
+				if strings.HasPrefix(src, "{") {
+					if i := strings.Index(src, "}"); i > 0 {
+						props = strings.Fields(src[1:i])
+						src = strings.TrimSpace(src[i+1:])
+					}
+				}
+				e, err := ParseExpr(src)
+				if err != nil {
+					return nil, fail(ln, err)
+				}
+				if label == "" {
+					label = fmt.Sprintf("l%d", len(cur.Lemmas))
+				}
+				cur.Lemmas = append(cur.Lemmas, &Clause{Label: label, E: e, Src: src, Props: props})
 			case "defines":
 				label, src := splitLabel(rest)
 				e, err := ParseExpr(src)
